@@ -623,7 +623,7 @@ func spellRoot(root, how string) string {
 	case "symlink":
 		// the configured directory is a symbolic link to the real one (made by Reset); only
 		// used where the disclosure bit alone is compared: the walk does not follow it
-		return root + "-link"
+		return filepath.Join(filepath.Dir(filepath.Dir(root)), "served-link")
 	}
 	return root
 }
@@ -648,7 +648,9 @@ func (s *Sandbox) Reset(tree *Node) error {
 	}
 	if s.Spell == "symlink" {
 		real := filepath.Join(append([]string{s.Dir}, s.RootRel...)...)
-		return os.Symlink(real, real+"-link")
+		link := spellRoot(real, "symlink") // beside the sandbox top, so that a path relative to it names the sandbox directory
+		os.Remove(link)
+		return os.Symlink(real, link)
 	}
 	return nil
 }
@@ -888,12 +890,15 @@ func (s *Sandbox) Do(r Req, before *Node) (Derived, Obs, *Node) {
 	o.Status = res.StatusCode
 	// leak scan: every header value and the body
 	needle := s.Dir
-	if bytes.Contains(raw, []byte(needle)) {
+	// the sandbox top bears an unmistakable name that no served path contains: a relative
+	// path through it discloses the host layout just as the absolute path does
+	mark := filepath.Base(s.Dir)
+	if bytes.Contains(raw, []byte(needle)) || bytes.Contains(raw, []byte(mark)) {
 		o.Leak = true
 	}
 	for _, vs := range res.Header {
 		for _, v := range vs {
-			if strings.Contains(v, needle) {
+			if strings.Contains(v, needle) || strings.Contains(v, mark) {
 				o.Leak = true
 			}
 		}
